@@ -1,0 +1,13 @@
+//go:build verif
+
+package io
+
+// VerifHook, when non-nil, is invoked at the block hand-off protocol points of
+// the encoding and decoding tasks. Test-only instrumentation (build tag verif).
+var VerifHook func(side, point int, owner *int32, blockID int32, observed int32)
+
+func verifPoint(side, point int, owner *int32, blockID int32, observed int32) {
+	if h := VerifHook; h != nil {
+		h(side, point, owner, blockID, observed)
+	}
+}
